@@ -139,7 +139,17 @@ def validate_trace(trace_module, cfg, trace_file, tag, env_extra=None, timeout=6
 
 # ----------------------------------------------------------------------------- harness
 
-def run_harness(binary, args, tag, timeout=3000):
+class HarnessCrash(Exception):
+    """The harness process was killed by a fatal signal (abort on allocation failure, stack overflow, ...) while the
+    code under test was running: data about the code, not a tool error."""
+    def __init__(self, rc, stderr):
+        Exception.__init__(self, "harness died with rc=%s: %s" % (rc, stderr[-300:]))
+        self.rc = rc
+        self.stderr = stderr
+
+FATAL_RCS = (-6, -11, -7, -4, 134, 139, 135, 132)
+
+def run_harness(binary, args, tag, timeout=3000, crash_is_data=False):
     out = os.path.join(WORK, "h_%s.json" % tag)
     if os.path.exists(out):
         os.remove(out)
@@ -151,6 +161,8 @@ def run_harness(binary, args, tag, timeout=3000):
             log(l)
     if r.returncode == 124:
         raise ToolError("harness %s timed out" % " ".join(map(str, args)))
+    if not os.path.exists(out) and crash_is_data and r.returncode in FATAL_RCS:
+        raise HarnessCrash(r.returncode, r.stderr)
     if not os.path.exists(out):
         raise ToolError("harness %s produced no report (rc=%d): %s" % (" ".join(map(str, args)), r.returncode, r.stderr[-2000:]))
     j = json.load(open(out))
